@@ -240,6 +240,14 @@ func Build(v sb.V) interface{} {
 			return (*Plain)(nil)
 		case "string":
 			return (*string)(nil)
+		case "stringer":
+			return (*OnlyStringer)(nil) // String has a value receiver
+		case "number":
+			return (*OnlyNumber)(nil)
+		case "boolean":
+			return (*OnlyBoolean)(nil)
+		case "decimal":
+			return (*decimal.Decimal)(nil)
 		}
 		return (*Plain)(nil)
 	}
